@@ -27,5 +27,13 @@ Variants(k, a) ==
 
 Setup(k, a, p) == IF a = "none" THEN <<OpsOp(p), CNewOp>> ELSE <<OpsOp(p), LoadOp(<<k>>), CNewOp, CSetKeyOp(a, 0)>>
 C06Scripts == UNION { { Setup(ka[1], ka[2], p) \o <<VerifyOp(t)>> : t \in Variants(ka[1], ka[2]) } : ka \in Cfgs, p \in Providers }
-MCSpec == ISpecWith(C06Scripts)
+\* checkers that expect iss / sub / aud, offered tokens carrying that claim as every JSON type (RFC 7519 allows an
+\* array for aud): the comparison must cope with values that are not strings
+TypedClaim(c) == { <<c, "str", "me", W0>>, <<c, "str", "", W0>>, <<c, "int", "", WOf(7)>>, <<c, "bool", "true", W0>>, <<c, "null", "null", W0>>,
+                   <<c, "real", "real", W0>>, <<c, "arr", "[\"me\",\"x\"]", W0>>, <<c, "obj", "{\"me\":1}", W0>>, <<c, "strx", "6d00", W0>> }
+ClaimScripts ==
+  UNION { { Setup(ka[1], ka[2], p) \o <<CClaimSetOp(c, "me"), VerifyOp(Tok(ka[2], <<>>, <<m>>, IF ka[2] = "none" THEN EmptySig ELSE Sig("valid", ka[2], ka[1])))>> :
+              c \in {"iss", "sub", "aud"}, m \in TypedClaim("iss") \cup TypedClaim("sub") \cup TypedClaim("aud") }
+          : ka \in { <<DummyKey, "none">>, <<OctKey(32, "a", NONE, NONE), "HS256">> }, p \in Providers }
+MCSpec == ISpecFam(<<C06Scripts, ClaimScripts>>)
 =============================================================================
